@@ -94,6 +94,15 @@ static const char* const kCtrName[K_N] = {
   "state.partial_proper_subproduct", "state.fused_exact_above_2p31", "skip.inverse_of_zero", "skip.fused_would_overflow_word", "skip.type_cannot_hold",
 };
 
+// stable classification of a failing situation (all strings are literals / static): becomes the violation signature
+struct Sig {
+  const char* form;
+  const char* type = nullptr;   // machine integer type involved
+  const char* k1 = nullptr; const char* v1 = nullptr;   // e.g. "operand" -> "lt_-P"
+  const char* k2 = nullptr; const char* v2 = nullptr;
+  const char* extra = nullptr;  // e.g. the reason given by the partial-inverse oracle
+};
+
 struct Rep {
   vh::Case& c;
   std::string cls;    // class under test (stable)
@@ -114,10 +123,31 @@ struct Rep {
     if (++nviol > 24) return;
     c.violation(check, full, cls + " over " + fld + ": " + detail);
   }
+  // cold, out-of-line reporter used by the templated monitors (keeps their code small)
+  template <class Z>
+  __attribute__((noinline)) void failv(const char* check, const Sig& s, const Z* a, const Z* b, const Z* cc, const Z* got, const Z* want) {
+    std::string sig = std::string("form=") + s.form;
+    if (s.type) sig += std::string(",type=") + s.type;
+    if (s.k1) sig += std::string(",") + s.k1 + "=" + s.v1;
+    if (s.k2) sig += std::string(",") + s.k2 + "=" + s.v2;
+    if (s.extra && *s.extra) sig += std::string(",") + s.extra;
+    std::string d = std::string(s.form) + (s.type ? std::string(" [") + s.type + "]" : std::string());
+    if (a) d += " a=" + zstr(*a);
+    if (b) d += " b=" + zstr(*b);
+    if (cc) d += " c=" + zstr(*cc);
+    if (got) d += " got=" + zstr(*got);
+    if (want) d += " want=" + zstr(*want);
+    if (std::string(check) == "partial_inverse") d += "  (a = x, b = Q or P, got = value returned, want = T returned)";
+    fail(check, sig, d);
+  }
 };
 
 #define C10_CHECK(R, ctr, cond, check, sigexpr, detailexpr) \
   do { ++(R).n[ctr]; if (!(cond)) (R).fail((check), (sigexpr), (detailexpr)); } while (0)
+// Z-typed values are passed by address; use C10_NIL(Z) for an absent one
+#define C10_NIL(Z) ((const Z*)nullptr)
+#define C10_CHECKV(R, Z, ctr, cond, check, a, b, cc, got, want, ...) \
+  do { ++(R).n[ctr]; if (__builtin_expect(!(cond), 0)) { const ::c10::Sig sig__{__VA_ARGS__}; (R).template failv<Z>((check), sig__, (a), (b), (cc), (got), (want)); } } while (0)
 
 // stable classification of an operand relative to the modulus
 template <class Z>
@@ -168,13 +198,13 @@ template <bool kBool, class Fn> inline void for_types(Fn&& fn) {
 // primes of Q at which x is invertible, v = x^-1 modulo each prime of T and v = 0 modulo every other prime of the range.
 // x, v are compared as residues modulo P = product(primes).  Returns "" when (v, T) is right, else the reason.
 template <class Z>
-inline std::string partial_inverse_wrong(const std::vector<uint64_t>& primes, const Z& P, const Z& x, const Z& Q, const Z& v,
+inline const char* partial_inverse_wrong(const std::vector<uint64_t>& primes, const Z& P, const Z& x, const Z& Q, const Z& v,
                                          const Z* T /* nullptr: do not check T */) {
   if (v < 0 || v >= P) return "value_not_reduced";
   Z wantT = 1;
   for (uint64_t q : primes) {
     Z zq = toZ<Z>((unsigned long)q);
-    bool inQ = (Q % zq) == 0;
+    bool inQ = Z(Q % zq) == 0;
     bool invertible = pmod(x, zq) != 0;
     if (inQ && invertible) {
       wantT *= zq;
@@ -187,14 +217,22 @@ inline std::string partial_inverse_wrong(const std::vector<uint64_t>& primes, co
   return "";
 }
 template <class Z>
-inline std::string partial_identity_wrong(const std::vector<uint64_t>& primes, const Z& P, const Z& Q, const Z& v) {
+inline const char* partial_identity_wrong(const std::vector<uint64_t>& primes, const Z& P, const Z& Q, const Z& v) {
   if (v < 0 || v >= P) return "value_not_reduced";
   for (uint64_t q : primes) {
     Z zq = toZ<Z>((unsigned long)q);
-    bool inQ = (Q % zq) == 0;
+    bool inQ = Z(Q % zq) == 0;
     if (pmod(v, zq) != (inQ ? 1 : 0)) return inQ ? "not_1_at_prime_of_Q" : "not_0_at_prime_outside_Q";
   }
   return "";
+}
+// classification of (x, Q) for the evidence counters
+template <class Z>
+inline void note_partial(Rep& R, const std::vector<uint64_t>& primes, const Z& P, const Z& x, const Z& Q) {
+  bool all = true, none = true;
+  for (uint64_t q : primes) { Z zq = toZ<Z>((unsigned long)q); if (Z(Q % zq) == 0) { if (Z(x % zq) == 0) all = false; else none = false; } }
+  if (none) ++R.n[S_PARTIAL_NONE]; else if (all) ++R.n[S_PARTIAL_ALL]; else ++R.n[S_PARTIAL_MIXED];
+  if (Q != P && Q != 1) ++R.n[S_PROPER_Q];
 }
 
 // sub-products Q of the range used as partial-inverse arguments: all of them when there are <= 6 primes
@@ -238,6 +276,7 @@ inline std::vector<Z> partial_operands(const std::vector<uint64_t>& primes, cons
 // ------------------------------------------------------------------------------------------ operand sets (native)
 // exhaustive window [-3P, 3P]
 inline std::vector<i128> window(i128 P) { std::vector<i128> v; for (i128 a = -3 * P; a <= 3 * P; ++a) v.push_back(a); return v; }
+inline std::vector<i128> range_vals(i128 lo, i128 hi) { std::vector<i128> v; for (i128 a = lo; a <= hi; ++a) v.push_back(a); return v; }
 // boundary-directed values within [LONG_MIN, ULONG_MAX]: around 0, +-P, +-2P, machine-word limits, the primes of the range, random
 inline std::vector<i128> boundary_values(i128 P, const std::vector<uint64_t>& primes, vh::Rng& r, int nrandom) {
   std::vector<i128> v;
@@ -261,169 +300,192 @@ inline std::vector<i128> boundary_values(i128 P, const std::vector<uint64_t>& pr
   }
   return v;
 }
+inline std::vector<i128> reduced_boundary(i128 P, vh::Rng& r, int nrandom) {
+  std::vector<i128> v = {0, 1, 2, (P - 1) / 2, (P + 1) / 2, P - 2, P - 1};
+  for (int i = 0; i < nrandom; ++i) v.push_back((i128)r.below((uint64_t)P));
+  for (auto& x : v) x = pmod(x, P);
+  return v;
+}
 
 // ------------------------------------------------------------------------------------------ element classes (native)
 // unary observations on one exact operand a
 template <class F, bool kBool>
 inline void elem_unary(Rep& R, i128 P, const std::vector<uint64_t>& primes, i128 a, const std::vector<i128>& Qs) {
-  const i128 ra = pmod(a, P);
+  typedef i128 Z;
+  const i128 ra = pmod(a, P), ra1 = pmod(ra + 1, P);
+  const char* oc = opclass(a, P);
   note_operand(R, a, P);
   for_types<kBool>([&](auto tag) {
     using I = decltype(tag);
     if (!fits<I>(a, P)) { ++R.n[K_SKIP_TYPE]; return; }
     const I v = (I)a;
     F f(v);
-    C10_CHECK(R, tctr<I>(), (i128)f.get_value() == ra, "convert", std::string("form=constructor,type=") + tname<I>() + ",operand=" + opclass(a, P),
-              "F(" + zstr(a) + ").get_value()=" + zstr((i128)f.get_value()) + " want " + zstr(ra));
+    i128 got = (i128)f.get_value();
+    C10_CHECKV(R, Z, tctr<I>(), got == ra, "convert", &a, C10_NIL(Z), C10_NIL(Z), &got, &ra, "constructor", tname<I>(), "operand", oc);
     F g;
     g = v;
-    C10_CHECK(R, K_ASSIGN, (i128)g.get_value() == ra, "convert", std::string("form=assignment,type=") + tname<I>() + ",operand=" + opclass(a, P),
-              "(F = " + zstr(a) + ").get_value()=" + zstr((i128)g.get_value()) + " want " + zstr(ra));
+    got = (i128)g.get_value();
+    C10_CHECKV(R, Z, K_ASSIGN, got == ra, "convert", &a, C10_NIL(Z), C10_NIL(Z), &got, &ra, "assignment", tname<I>(), "operand", oc);
     F h((unsigned int)ra);
-    C10_CHECK(R, K_CMP_MIXED, (h == v) && (v == h) && !(h != v) && !(v != h), "compare", std::string("form=elem_vs_integer_equal,type=") + tname<I>() + ",operand=" + opclass(a, P),
-              "F(" + zstr(ra) + ") compared with the integer " + zstr(a) + " of the same residue: not equal");
-    F h2((unsigned int)pmod(ra + 1, P));
-    C10_CHECK(R, K_CMP_MIXED, !(h2 == v) && !(v == h2) && (h2 != v) && (v != h2), "compare", std::string("form=elem_vs_integer_differ,type=") + tname<I>() + ",operand=" + opclass(a, P),
-              "F(" + zstr(pmod(ra + 1, P)) + ") compared with the integer " + zstr(a) + " of another residue: equal");
+    C10_CHECKV(R, Z, K_CMP_MIXED, (h == v) && (v == h) && !(h != v) && !(v != h), "compare", &ra, &a, C10_NIL(Z), C10_NIL(Z), C10_NIL(Z), "elem_vs_integer_of_same_residue", tname<I>(), "operand", oc);
+    if (P > 1) {
+      F h2((unsigned int)ra1);
+      C10_CHECKV(R, Z, K_CMP_MIXED, !(h2 == v) && !(v == h2) && (h2 != v) && (v != h2), "compare", &ra1, &a, C10_NIL(Z), C10_NIL(Z), C10_NIL(Z), "elem_vs_integer_of_other_residue", tname<I>(), "operand", oc);
+    }
   });
   F x((unsigned int)ra);
-  C10_CHECK(R, K_CAST, (i128)(unsigned int)x == ra, "convert", "form=cast_to_unsigned", "unsigned(F(" + zstr(ra) + "))=" + zstr((i128)(unsigned int)x));
-  { F cp(x); F mv(std::move(cp)); F as; as = x;
-    C10_CHECK(R, K_ASSIGN, (i128)mv.get_value() == ra && (i128)as.get_value() == ra, "convert", "form=copy_move", "copy/move of F(" + zstr(ra) + ") changed the value"); }
+  { i128 got = (i128)(unsigned int)x; C10_CHECKV(R, Z, K_CAST, got == ra, "convert", &ra, C10_NIL(Z), C10_NIL(Z), &got, &ra, "cast_to_unsigned"); }
+  { F cp(x); F mv(std::move(cp)); F as; as = x; F sw((unsigned int)ra1); swap(as, sw);
+    i128 g1 = (i128)mv.get_value(), g2 = (i128)sw.get_value(), g3 = (i128)as.get_value();
+    C10_CHECKV(R, Z, K_ASSIGN, g1 == ra && g2 == ra && g3 == ra1, "convert", &ra, C10_NIL(Z), C10_NIL(Z), &g1, &ra, "copy_move_swap"); }
   if (primes.size() == 1) {
     if (ra == 0) { ++R.n[K_SKIP_INVERSE_OF_ZERO]; }
     else {
       F inv = x.get_inverse();
       i128 iv = (i128)inv.get_value();
-      C10_CHECK(R, K_INVERSE, iv >= 0 && iv < P && (iv * ra) % P == 1, "inverse", "form=get_inverse", "inverse of " + zstr(ra) + " returned " + zstr(iv));
+      C10_CHECKV(R, Z, K_INVERSE, iv >= 0 && iv < P && (iv * ra) % P == 1, "inverse", &ra, C10_NIL(Z), C10_NIL(Z), &iv, C10_NIL(Z), "get_inverse");
       F one = x * inv;
-      C10_CHECK(R, K_INVERSE, (i128)one.get_value() == 1 && one == F::get_multiplicative_identity(), "inverse", "form=x_times_inverse", "x*x^-1 = " + zstr((i128)one.get_value()) + " for x=" + zstr(ra));
+      i128 ov = (i128)one.get_value();
+      C10_CHECKV(R, Z, K_INVERSE, ov == 1 && one == F::get_multiplicative_identity(), "inverse", &ra, &iv, C10_NIL(Z), &ov, C10_NIL(Z), "x_times_inverse");
       auto pi = x.get_partial_inverse((unsigned int)P);
-      C10_CHECK(R, K_PARTIAL_INVERSE, (i128)pi.first.get_value() == iv && (i128)pi.second == P, "partial_inverse", "form=single_prime",
-                "get_partial_inverse(P) of " + zstr(ra) + " returned (" + zstr((i128)pi.first.get_value()) + "," + zstr((i128)pi.second) + ")");
+      i128 gv = (i128)pi.first.get_value(), gT = (i128)pi.second;
+      C10_CHECKV(R, Z, K_PARTIAL_INVERSE, gv == iv && gT == P, "partial_inverse", &ra, &P, C10_NIL(Z), &gv, &iv, "single_prime");
     }
-    C10_CHECK(R, K_PARTIAL_IDENTITY, (i128)F::get_partial_multiplicative_identity((unsigned int)P).get_value() == 1, "partial_identity", "form=single_prime", "partial identity of P is not 1");
+    i128 one = (i128)F::get_partial_multiplicative_identity((unsigned int)P).get_value();
+    C10_CHECKV(R, Z, K_PARTIAL_IDENTITY, one == 1, "partial_identity", &P, C10_NIL(Z), C10_NIL(Z), &one, C10_NIL(Z), "single_prime");
   } else {
     F inv = x.get_inverse();
-    std::string why = partial_inverse_wrong<i128>(primes, P, ra, P, (i128)inv.get_value(), nullptr);
-    C10_CHECK(R, K_INVERSE, why.empty(), "inverse", "form=get_inverse_multi," + why, "get_inverse of " + zstr(ra) + " returned " + zstr((i128)inv.get_value()));
+    i128 iv = (i128)inv.get_value();
+    const char* why = partial_inverse_wrong<i128>(primes, P, ra, P, iv, nullptr);
+    C10_CHECKV(R, Z, K_INVERSE, !*why, "inverse", &ra, C10_NIL(Z), C10_NIL(Z), &iv, C10_NIL(Z), "get_inverse_multi", nullptr, nullptr, nullptr, nullptr, nullptr, why);
     for (i128 Q : Qs) {
       auto pi = x.get_partial_inverse((unsigned int)Q);
       i128 gv = (i128)pi.first.get_value(), gT = (i128)pi.second;
       why = partial_inverse_wrong<i128>(primes, P, ra, Q, gv, &gT);
-      i128 g = std::gcd((unsigned long)ra, (unsigned long)Q);
-      if (g == Q) ++R.n[S_PARTIAL_NONE]; else if (g == 1) ++R.n[S_PARTIAL_ALL]; else ++R.n[S_PARTIAL_MIXED];
-      if (Q != P && Q != 1) ++R.n[S_PROPER_Q];
-      C10_CHECK(R, K_PARTIAL_INVERSE, why.empty(), "partial_inverse", std::string("form=") + (Q == P ? "Q_is_full_product" : "Q_is_proper_subproduct") + "," + why,
-                "get_partial_inverse(Q=" + zstr(Q) + ") of x=" + zstr(ra) + " returned (" + zstr(gv) + ", T=" + zstr(gT) + ")");
+      note_partial<i128>(R, primes, P, ra, Q);
+      C10_CHECKV(R, Z, K_PARTIAL_INVERSE, !*why, "partial_inverse", &ra, &Q, C10_NIL(Z), &gv, &gT, (Q == P ? "Q_is_full_product" : "Q_is_proper_subproduct"),
+                 nullptr, nullptr, nullptr, nullptr, nullptr, why);
     }
   }
 }
 template <class F>
 inline void elem_constants(Rep& R, i128 P, const std::vector<uint64_t>& primes, const std::vector<i128>& Qs) {
-  C10_CHECK(R, K_IDENTITY, (i128)F::get_additive_identity().get_value() == 0, "identity", "form=additive", "additive identity is " + zstr((i128)F::get_additive_identity().get_value()));
-  C10_CHECK(R, K_IDENTITY, (i128)F::get_multiplicative_identity().get_value() == 1 % P, "identity", "form=multiplicative", "multiplicative identity is " + zstr((i128)F::get_multiplicative_identity().get_value()));
-  C10_CHECK(R, K_CHARACTERISTIC, (i128)F::get_characteristic() == P, "characteristic", "form=get_characteristic", "get_characteristic()=" + zstr((i128)F::get_characteristic()) + " want " + zstr(P));
-  C10_CHECK(R, K_IDENTITY, (i128)F().get_value() == 0, "identity", "form=default_constructed", "default constructed element is not 0");
+  typedef i128 Z;
+  i128 got = (i128)F::get_additive_identity().get_value(), want = 0;
+  C10_CHECKV(R, Z, K_IDENTITY, got == want, "identity", C10_NIL(Z), C10_NIL(Z), C10_NIL(Z), &got, &want, "additive");
+  got = (i128)F::get_multiplicative_identity().get_value(); want = 1 % P;
+  C10_CHECKV(R, Z, K_IDENTITY, got == want, "identity", C10_NIL(Z), C10_NIL(Z), C10_NIL(Z), &got, &want, "multiplicative");
+  got = (i128)F::get_characteristic(); want = P;
+  C10_CHECKV(R, Z, K_CHARACTERISTIC, got == want, "characteristic", C10_NIL(Z), C10_NIL(Z), C10_NIL(Z), &got, &want, "get_characteristic");
+  got = (i128)F().get_value(); want = 0;
+  C10_CHECKV(R, Z, K_IDENTITY, got == want, "identity", C10_NIL(Z), C10_NIL(Z), C10_NIL(Z), &got, &want, "default_constructed");
   if (primes.size() > 1)
     for (i128 Q : Qs) {
       i128 v = (i128)F::get_partial_multiplicative_identity((unsigned int)Q).get_value();
-      std::string why = partial_identity_wrong<i128>(primes, P, Q, v);
-      C10_CHECK(R, K_PARTIAL_IDENTITY, why.empty(), "partial_identity", "form=multi," + why, "get_partial_multiplicative_identity(" + zstr(Q) + ")=" + zstr(v));
+      const char* why = partial_identity_wrong<i128>(primes, P, Q, v);
+      C10_CHECKV(R, Z, K_PARTIAL_IDENTITY, !*why, "partial_identity", &Q, C10_NIL(Z), C10_NIL(Z), &v, C10_NIL(Z), "multi", nullptr, nullptr, nullptr, nullptr, nullptr, why);
     }
 }
 // binary observations on exact operands a (becomes the element) and b (element and typed integer)
 template <class F, bool kBool>
 inline void elem_binary(Rep& R, i128 P, i128 a, i128 b) {
+  typedef i128 Z;
   const i128 ra = pmod(a, P), rb = pmod(b, P);
   const i128 sum = pmod(ra + rb, P), dif = pmod(ra - rb, P), rdif = pmod(rb - ra, P), prd = pmod(ra * rb, P);
   const F x((unsigned int)ra), y((unsigned int)rb);
+  i128 got;
   if (a == ra && b == rb) {
     if (ra + rb >= P || ra < rb || ra * rb >= P) ++R.n[S_RESULT_WRAPPED];
     if (ra + rb > (i128)UINT_MAX) ++R.n[S_UINT32_WRAP];
-    C10_CHECK(R, K_ADD, (i128)(x + y).get_value() == sum, "add", "form=elem+elem", zstr(ra) + "+" + zstr(rb) + " gave " + zstr((i128)(x + y).get_value()) + " want " + zstr(sum));
-    C10_CHECK(R, K_SUB, (i128)(x - y).get_value() == dif, "sub", "form=elem-elem", zstr(ra) + "-" + zstr(rb) + " gave " + zstr((i128)(x - y).get_value()) + " want " + zstr(dif));
-    C10_CHECK(R, K_MUL, (i128)(x * y).get_value() == prd, "mul", "form=elem*elem", zstr(ra) + "*" + zstr(rb) + " gave " + zstr((i128)(x * y).get_value()) + " want " + zstr(prd));
-    { F t(x); t += y; C10_CHECK(R, K_INPLACE, (i128)t.get_value() == sum, "add", "form=elem+=elem", zstr(ra) + "+=" + zstr(rb) + " gave " + zstr((i128)t.get_value())); }
-    { F t(x); t -= y; C10_CHECK(R, K_INPLACE, (i128)t.get_value() == dif, "sub", "form=elem-=elem", zstr(ra) + "-=" + zstr(rb) + " gave " + zstr((i128)t.get_value())); }
-    { F t(x); t *= y; C10_CHECK(R, K_INPLACE, (i128)t.get_value() == prd, "mul", "form=elem*=elem", zstr(ra) + "*=" + zstr(rb) + " gave " + zstr((i128)t.get_value())); }
-    C10_CHECK(R, K_CMP, (x == y) == (ra == rb) && (x != y) == (ra != rb), "compare", "form=elem_vs_elem", zstr(ra) + " vs " + zstr(rb));
+    got = (i128)(x + y).get_value(); C10_CHECKV(R, Z, K_ADD, got == sum, "add", &ra, &rb, C10_NIL(Z), &got, &sum, "elem+elem");
+    got = (i128)(x - y).get_value(); C10_CHECKV(R, Z, K_SUB, got == dif, "sub", &ra, &rb, C10_NIL(Z), &got, &dif, "elem-elem");
+    got = (i128)(x * y).get_value(); C10_CHECKV(R, Z, K_MUL, got == prd, "mul", &ra, &rb, C10_NIL(Z), &got, &prd, "elem*elem");
+    { F t(x); t += y; got = (i128)t.get_value(); C10_CHECKV(R, Z, K_INPLACE, got == sum, "add", &ra, &rb, C10_NIL(Z), &got, &sum, "elem+=elem"); }
+    { F t(x); t -= y; got = (i128)t.get_value(); C10_CHECKV(R, Z, K_INPLACE, got == dif, "sub", &ra, &rb, C10_NIL(Z), &got, &dif, "elem-=elem"); }
+    { F t(x); t *= y; got = (i128)t.get_value(); C10_CHECKV(R, Z, K_INPLACE, got == prd, "mul", &ra, &rb, C10_NIL(Z), &got, &prd, "elem*=elem"); }
+    C10_CHECKV(R, Z, K_CMP, (x == y) == (ra == rb) && (x != y) == (ra != rb), "compare", &ra, &rb, C10_NIL(Z), C10_NIL(Z), C10_NIL(Z), "elem_vs_elem");
   }
+  const char* oc = opclass(b, P);
   for_types<kBool>([&](auto tag) {
     using I = decltype(tag);
     if (!fits<I>(b, P)) { ++R.n[K_SKIP_TYPE]; return; }
     const I v = (I)b;
-    const std::string ts = std::string(",type=") + tname<I>() + ",integer=" + opclass(b, P);
-    C10_CHECK(R, K_ADD_MIXED, (i128)(x + v).get_value() == sum, "add", "form=elem+integer" + ts, "F(" + zstr(ra) + ")+" + zstr(b) + " gave " + zstr((i128)(x + v).get_value()) + " want " + zstr(sum));
-    C10_CHECK(R, K_SUB_MIXED, (i128)(x - v).get_value() == dif, "sub", "form=elem-integer" + ts, "F(" + zstr(ra) + ")-" + zstr(b) + " gave " + zstr((i128)(x - v).get_value()) + " want " + zstr(dif));
-    C10_CHECK(R, K_MUL_MIXED, (i128)(x * v).get_value() == prd, "mul", "form=elem*integer" + ts, "F(" + zstr(ra) + ")*" + zstr(b) + " gave " + zstr((i128)(x * v).get_value()) + " want " + zstr(prd));
-    { F t(x); t += v; C10_CHECK(R, K_INPLACE, (i128)t.get_value() == sum, "add", "form=elem+=integer" + ts, "F(" + zstr(ra) + ")+=" + zstr(b) + " gave " + zstr((i128)t.get_value())); }
-    { F t(x); t -= v; C10_CHECK(R, K_INPLACE, (i128)t.get_value() == dif, "sub", "form=elem-=integer" + ts, "F(" + zstr(ra) + ")-=" + zstr(b) + " gave " + zstr((i128)t.get_value())); }
-    { F t(x); t *= v; C10_CHECK(R, K_INPLACE, (i128)t.get_value() == prd, "mul", "form=elem*=integer" + ts, "F(" + zstr(ra) + ")*=" + zstr(b) + " gave " + zstr((i128)t.get_value())); }
-    { I g = v + x; C10_CHECK(R, K_ADD_MIXED, (i128)g == sum, "add", "form=integer+elem" + ts, zstr(b) + "+F(" + zstr(ra) + ") gave " + zstr((i128)g) + " want " + zstr(sum)); }
-    { I g = v - x; C10_CHECK(R, K_SUB_MIXED, (i128)g == rdif, "sub", "form=integer-elem" + ts, zstr(b) + "-F(" + zstr(ra) + ") gave " + zstr((i128)g) + " want " + zstr(rdif)); }
-    { I g = v * x; C10_CHECK(R, K_MUL_MIXED, (i128)g == prd, "mul", "form=integer*elem" + ts, zstr(b) + "*F(" + zstr(ra) + ") gave " + zstr((i128)g) + " want " + zstr(prd)); }
-    C10_CHECK(R, K_CMP_MIXED, (x == v) == (ra == rb) && (v == x) == (ra == rb) && (x != v) == (ra != rb) && (v != x) == (ra != rb), "compare", "form=elem_vs_integer" + ts,
-              "F(" + zstr(ra) + ") vs integer " + zstr(b));
+    const char* tn = tname<I>();
+    i128 g;
+    g = (i128)(x + v).get_value(); C10_CHECKV(R, Z, K_ADD_MIXED, g == sum, "add", &ra, &b, C10_NIL(Z), &g, &sum, "elem+integer", tn, "integer", oc);
+    g = (i128)(x - v).get_value(); C10_CHECKV(R, Z, K_SUB_MIXED, g == dif, "sub", &ra, &b, C10_NIL(Z), &g, &dif, "elem-integer", tn, "integer", oc);
+    g = (i128)(x * v).get_value(); C10_CHECKV(R, Z, K_MUL_MIXED, g == prd, "mul", &ra, &b, C10_NIL(Z), &g, &prd, "elem*integer", tn, "integer", oc);
+    { F t(x); t += v; g = (i128)t.get_value(); C10_CHECKV(R, Z, K_INPLACE, g == sum, "add", &ra, &b, C10_NIL(Z), &g, &sum, "elem+=integer", tn, "integer", oc); }
+    { F t(x); t -= v; g = (i128)t.get_value(); C10_CHECKV(R, Z, K_INPLACE, g == dif, "sub", &ra, &b, C10_NIL(Z), &g, &dif, "elem-=integer", tn, "integer", oc); }
+    { F t(x); t *= v; g = (i128)t.get_value(); C10_CHECKV(R, Z, K_INPLACE, g == prd, "mul", &ra, &b, C10_NIL(Z), &g, &prd, "elem*=integer", tn, "integer", oc); }
+    { I r = v + x; g = (i128)r; C10_CHECKV(R, Z, K_ADD_MIXED, g == sum, "add", &b, &ra, C10_NIL(Z), &g, &sum, "integer+elem", tn, "integer", oc); }
+    { I r = v - x; g = (i128)r; C10_CHECKV(R, Z, K_SUB_MIXED, g == rdif, "sub", &b, &ra, C10_NIL(Z), &g, &rdif, "integer-elem", tn, "integer", oc); }
+    { I r = v * x; g = (i128)r; C10_CHECKV(R, Z, K_MUL_MIXED, g == prd, "mul", &b, &ra, C10_NIL(Z), &g, &prd, "integer*elem", tn, "integer", oc); }
+    C10_CHECKV(R, Z, K_CMP_MIXED, (x == v) == (ra == rb) && (v == x) == (ra == rb) && (x != v) == (ra != rb) && (v != x) == (ra != rb), "compare", &ra, &b, C10_NIL(Z), C10_NIL(Z), C10_NIL(Z),
+               "elem_vs_integer", tn, "integer", oc);
   });
 }
 
 // ------------------------------------------------------------------------------------------ stateless operator classes
 // E = element type passed to the methods (unsigned int / bool / mpz_class), Z = oracle integer type.
-// traits: kSignedGetValue: get_value accepts signed machine integers; kFusedWordLimited: fused methods are documented
-// "not overflow safe" -> only triples whose exact value fits the element word are submitted.
 template <class Z, class E> inline E mkE(const Z& v) {
   if constexpr (std::is_same_v<Z, i128>) return (E)(unsigned long)v;
   else return E(v);
 }
 template <class Op, class E, class Z>
-inline void ops_unary(Rep& R, Op& op, const Z& P, const std::vector<uint64_t>& primes, const Z& a /* >= 0 unless E is a big integer */, const std::vector<Z>& Qs) {
+inline void ops_unary(Rep& R, Op& op, const Z& P, const std::vector<uint64_t>& primes, const Z& a /* >= 0 unless E is a big integer */, const std::vector<Z>& Qs,
+                      bool inverse_of_unreduced = true /* false: (partial) inverses are only asked for reduced operands */) {
   const Z ra = pmod(a, P);
+  const char* oc = opclass(a, P);
   note_operand(R, a, P);
   const E e = mkE<Z, E>(a);
-  C10_CHECK(R, K_GET_VALUE, toZ<Z>(op.get_value(e)) == ra, "convert", std::string("form=get_value,type=element,operand=") + opclass(a, P), "get_value(" + zstr(a) + ")=" + zstr(toZ<Z>(op.get_value(e))) + " want " + zstr(ra));
-  const E eq = mkE<Z, E>(ra), ne = mkE<Z, E>(pmod(Z(ra + 1), P));
-  C10_CHECK(R, K_CMP, op.are_equal(e, eq) && op.are_equal(eq, e) && (P == 1 || (!op.are_equal(e, ne) && !op.are_equal(ne, e))), "compare", std::string("form=are_equal,operand=") + opclass(a, P),
-            "are_equal(" + zstr(a) + ", same/next residue) wrong");
+  Z got = toZ<Z>(op.get_value(e));
+  C10_CHECKV(R, Z, K_GET_VALUE, got == ra, "convert", &a, C10_NIL(Z), C10_NIL(Z), &got, &ra, "get_value", "element", "operand", oc);
+  const Z rn = pmod(Z(ra + 1), P);
+  const E eq = mkE<Z, E>(ra), ne = mkE<Z, E>(rn);
+  C10_CHECKV(R, Z, K_CMP, op.are_equal(e, eq) && op.are_equal(eq, e) && (P == 1 || (!op.are_equal(e, ne) && !op.are_equal(ne, e))), "compare", &a, &ra, C10_NIL(Z), C10_NIL(Z), C10_NIL(Z), "are_equal", nullptr, "operand", oc);
+  if (!inverse_of_unreduced && a != ra) return;
   if (primes.size() == 1) {
     if (ra == 0) ++R.n[K_SKIP_INVERSE_OF_ZERO];
     else {
       Z iv = toZ<Z>(op.get_inverse(e));
-      C10_CHECK(R, K_INVERSE, iv >= 0 && iv < P && pmod(Z(iv * ra), P) == 1, "inverse", std::string("form=get_inverse,operand=") + opclass(a, P), "get_inverse(" + zstr(a) + ")=" + zstr(iv));
+      C10_CHECKV(R, Z, K_INVERSE, iv >= 0 && iv < P && pmod(Z(iv * ra), P) == 1, "inverse", &a, C10_NIL(Z), C10_NIL(Z), &iv, C10_NIL(Z), "get_inverse", nullptr, "operand", oc);
       Z one = toZ<Z>(op.multiply(e, mkE<Z, E>(iv)));
-      C10_CHECK(R, K_INVERSE, one == 1, "inverse", "form=x_times_inverse", "multiply(x, inverse(x)) = " + zstr(one) + " for x=" + zstr(a));
-      auto pi = op.get_partial_inverse(e, (typename Op::Characteristic)mkE<Z, typename Op::Characteristic>(P));
-      C10_CHECK(R, K_PARTIAL_INVERSE, toZ<Z>(pi.first) == iv && toZ<Z>(pi.second) == P, "partial_inverse", "form=single_prime", "get_partial_inverse(" + zstr(a) + ", P) = (" + zstr(toZ<Z>(pi.first)) + "," + zstr(toZ<Z>(pi.second)) + ")");
+      C10_CHECKV(R, Z, K_INVERSE, one == 1, "inverse", &a, &iv, C10_NIL(Z), &one, C10_NIL(Z), "x_times_inverse");
+      auto pi = op.get_partial_inverse(e, mkE<Z, typename Op::Characteristic>(P));
+      Z gv = toZ<Z>(pi.first), gT = toZ<Z>(pi.second);
+      C10_CHECKV(R, Z, K_PARTIAL_INVERSE, gv == iv && gT == P, "partial_inverse", &a, &P, C10_NIL(Z), &gv, &gT, "single_prime");
     }
   } else {
     Z iv = toZ<Z>(op.get_inverse(e));
-    std::string why = partial_inverse_wrong<Z>(primes, P, ra, P, iv, nullptr);
-    C10_CHECK(R, K_INVERSE, why.empty(), "inverse", "form=get_inverse_multi," + why, "get_inverse(" + zstr(a) + ")=" + zstr(iv));
+    const char* why = partial_inverse_wrong<Z>(primes, P, ra, P, iv, nullptr);
+    C10_CHECKV(R, Z, K_INVERSE, !*why, "inverse", &a, C10_NIL(Z), C10_NIL(Z), &iv, C10_NIL(Z), "get_inverse_multi", nullptr, "operand", oc, nullptr, nullptr, why);
     for (const Z& Q : Qs) {
       auto pi = op.get_partial_inverse(e, mkE<Z, typename Op::Characteristic>(Q));
       Z gv = toZ<Z>(pi.first), gT = toZ<Z>(pi.second);
       why = partial_inverse_wrong<Z>(primes, P, ra, Q, gv, &gT);
-      bool all = true, none = true;
-      for (uint64_t q : primes) { Z zq = toZ<Z>((unsigned long)q); if (Q % zq == 0) { if (ra % zq == 0) all = false; else none = false; } }
-      if (none) ++R.n[S_PARTIAL_NONE]; else if (all) ++R.n[S_PARTIAL_ALL]; else ++R.n[S_PARTIAL_MIXED];
-      if (Q != P && Q != 1) ++R.n[S_PROPER_Q];
-      C10_CHECK(R, K_PARTIAL_INVERSE, why.empty(), "partial_inverse", std::string("form=") + (Q == P ? "Q_is_full_product" : "Q_is_proper_subproduct") + ",operand=" + opclass(a, P) + "," + why,
-                "get_partial_inverse(x=" + zstr(a) + ", Q=" + zstr(Q) + ") returned (" + zstr(gv) + ", T=" + zstr(gT) + ")");
+      note_partial<Z>(R, primes, P, ra, Q);
+      C10_CHECKV(R, Z, K_PARTIAL_INVERSE, !*why, "partial_inverse", &a, &Q, C10_NIL(Z), &gv, &gT, (Q == P ? "Q_is_full_product" : "Q_is_proper_subproduct"),
+                 nullptr, "operand", oc, nullptr, nullptr, why);
     }
   }
 }
 template <class Op, class Z>
 inline void ops_constants(Rep& R, Op& op, const Z& P, const std::vector<uint64_t>& primes, const std::vector<Z>& Qs) {
-  C10_CHECK(R, K_IDENTITY, toZ<Z>(op.get_additive_identity()) == 0, "identity", "form=additive", "additive identity = " + zstr(toZ<Z>(op.get_additive_identity())));
-  C10_CHECK(R, K_IDENTITY, toZ<Z>(op.get_multiplicative_identity()) == 1, "identity", "form=multiplicative", "multiplicative identity = " + zstr(toZ<Z>(op.get_multiplicative_identity())));
-  C10_CHECK(R, K_CHARACTERISTIC, toZ<Z>(op.get_characteristic()) == P, "characteristic", "form=get_characteristic", "get_characteristic() = " + zstr(toZ<Z>(op.get_characteristic())) + " want " + zstr(P));
+  Z got = toZ<Z>(op.get_additive_identity()), want = 0;
+  C10_CHECKV(R, Z, K_IDENTITY, got == want, "identity", C10_NIL(Z), C10_NIL(Z), C10_NIL(Z), &got, &want, "additive");
+  got = toZ<Z>(op.get_multiplicative_identity()); want = 1;
+  C10_CHECKV(R, Z, K_IDENTITY, got == want, "identity", C10_NIL(Z), C10_NIL(Z), C10_NIL(Z), &got, &want, "multiplicative");
+  got = toZ<Z>(op.get_characteristic()); want = P;
+  C10_CHECKV(R, Z, K_CHARACTERISTIC, got == want, "characteristic", C10_NIL(Z), C10_NIL(Z), C10_NIL(Z), &got, &want, "get_characteristic");
   if (primes.size() == 1) {
-    C10_CHECK(R, K_PARTIAL_IDENTITY, toZ<Z>(op.get_partial_multiplicative_identity(mkE<Z, typename Op::Characteristic>(P))) == 1, "partial_identity", "form=single_prime", "partial identity of P is not 1");
+    got = toZ<Z>(op.get_partial_multiplicative_identity(mkE<Z, typename Op::Characteristic>(P))); want = 1;
+    C10_CHECKV(R, Z, K_PARTIAL_IDENTITY, got == want, "partial_identity", &P, C10_NIL(Z), C10_NIL(Z), &got, &want, "single_prime");
   } else {
     for (const Z& Q : Qs) {
       Z v = toZ<Z>(op.get_partial_multiplicative_identity(mkE<Z, typename Op::Characteristic>(Q)));
-      std::string why = partial_identity_wrong<Z>(primes, P, Q, v);
-      C10_CHECK(R, K_PARTIAL_IDENTITY, why.empty(), "partial_identity", "form=multi," + why, "get_partial_multiplicative_identity(" + zstr(Q) + ") = " + zstr(v));
+      const char* why = partial_identity_wrong<Z>(primes, P, Q, v);
+      C10_CHECKV(R, Z, K_PARTIAL_IDENTITY, !*why, "partial_identity", &Q, C10_NIL(Z), C10_NIL(Z), &v, C10_NIL(Z), "multi", nullptr, nullptr, nullptr, nullptr, nullptr, why);
     }
   }
 }
@@ -434,44 +496,76 @@ inline void ops_binary(Rep& R, Op& op, const Z& P, const Z& a, const Z& b) {
   const E ea = mkE<Z, E>(a), eb = mkE<Z, E>(b);
   if (ra + rb >= P || ra < rb || ra * rb >= P) ++R.n[S_RESULT_WRAPPED];
   if (ra + rb > toZ<Z>((unsigned long)UINT_MAX)) ++R.n[S_UINT32_WRAP];
-  const std::string cl = std::string(",lhs=") + opclass(a, P) + ",rhs=" + opclass(b, P);
-  C10_CHECK(R, K_ADD, toZ<Z>(op.add(ea, eb)) == sum, "add", "form=add" + cl, "add(" + zstr(a) + "," + zstr(b) + ")=" + zstr(toZ<Z>(op.add(ea, eb))) + " want " + zstr(sum));
-  C10_CHECK(R, K_SUB, toZ<Z>(op.subtract(ea, eb)) == dif, "sub", "form=subtract" + cl, "subtract(" + zstr(a) + "," + zstr(b) + ")=" + zstr(toZ<Z>(op.subtract(ea, eb))) + " want " + zstr(dif));
-  C10_CHECK(R, K_MUL, toZ<Z>(op.multiply(ea, eb)) == prd, "mul", "form=multiply" + cl, "multiply(" + zstr(a) + "," + zstr(b) + ")=" + zstr(toZ<Z>(op.multiply(ea, eb))) + " want " + zstr(prd));
-  { E t = ea; op.add_inplace(t, eb); C10_CHECK(R, K_INPLACE, toZ<Z>(t) == sum, "add", "form=add_inplace" + cl, "add_inplace(" + zstr(a) + "," + zstr(b) + ") left " + zstr(toZ<Z>(t)) + " want " + zstr(sum)); }
-  { E t = ea; op.subtract_inplace_front(t, eb); C10_CHECK(R, K_INPLACE, toZ<Z>(t) == dif, "sub", "form=subtract_inplace_front" + cl, "subtract_inplace_front(" + zstr(a) + "," + zstr(b) + ") left " + zstr(toZ<Z>(t)) + " want " + zstr(dif)); }
-  { E t = eb; op.subtract_inplace_back(ea, t); C10_CHECK(R, K_INPLACE, toZ<Z>(t) == dif, "sub", "form=subtract_inplace_back" + cl, "subtract_inplace_back(" + zstr(a) + "," + zstr(b) + ") left " + zstr(toZ<Z>(t)) + " want " + zstr(dif)); }
-  { E t = ea; op.multiply_inplace(t, eb); C10_CHECK(R, K_INPLACE, toZ<Z>(t) == prd, "mul", "form=multiply_inplace" + cl, "multiply_inplace(" + zstr(a) + "," + zstr(b) + ") left " + zstr(toZ<Z>(t)) + " want " + zstr(prd)); }
-  C10_CHECK(R, K_CMP, op.are_equal(ea, eb) == (ra == rb), "compare", "form=are_equal_pair" + cl, "are_equal(" + zstr(a) + "," + zstr(b) + ")");
+  const char* oa = opclass(a, P); const char* ob = opclass(b, P);
+  Z got;
+  got = toZ<Z>(op.add(ea, eb)); C10_CHECKV(R, Z, K_ADD, got == sum, "add", &a, &b, C10_NIL(Z), &got, &sum, "add", nullptr, "lhs", oa, "rhs", ob);
+  got = toZ<Z>(op.subtract(ea, eb)); C10_CHECKV(R, Z, K_SUB, got == dif, "sub", &a, &b, C10_NIL(Z), &got, &dif, "subtract", nullptr, "lhs", oa, "rhs", ob);
+  got = toZ<Z>(op.multiply(ea, eb)); C10_CHECKV(R, Z, K_MUL, got == prd, "mul", &a, &b, C10_NIL(Z), &got, &prd, "multiply", nullptr, "lhs", oa, "rhs", ob);
+  { E t = ea; op.add_inplace(t, eb); got = toZ<Z>(t); C10_CHECKV(R, Z, K_INPLACE, got == sum, "add", &a, &b, C10_NIL(Z), &got, &sum, "add_inplace", nullptr, "lhs", oa, "rhs", ob); }
+  { E t = ea; op.subtract_inplace_front(t, eb); got = toZ<Z>(t); C10_CHECKV(R, Z, K_INPLACE, got == dif, "sub", &a, &b, C10_NIL(Z), &got, &dif, "subtract_inplace_front", nullptr, "lhs", oa, "rhs", ob); }
+  { E t = eb; op.subtract_inplace_back(ea, t); got = toZ<Z>(t); C10_CHECKV(R, Z, K_INPLACE, got == dif, "sub", &a, &b, C10_NIL(Z), &got, &dif, "subtract_inplace_back", nullptr, "lhs", oa, "rhs", ob); }
+  { E t = ea; op.multiply_inplace(t, eb); got = toZ<Z>(t); C10_CHECKV(R, Z, K_INPLACE, got == prd, "mul", &a, &b, C10_NIL(Z), &got, &prd, "multiply_inplace", nullptr, "lhs", oa, "rhs", ob); }
+  C10_CHECKV(R, Z, K_CMP, op.are_equal(ea, eb) == (ra == rb), "compare", &a, &b, C10_NIL(Z), C10_NIL(Z), C10_NIL(Z), "are_equal_pair", nullptr, "lhs", oa, "rhs", ob);
 }
 // fused operations; word_limit > 0: skip triples whose exact intermediate value exceeds it (documented "not overflow safe")
 template <class Op, class E, class Z>
 inline void ops_fused(Rep& R, Op& op, const Z& P, const Z& a, const Z& b, const Z& c, const Z& word_limit) {
-  const Z ma = a * b + c, am = (a + b) * c;
-  const std::string cl = std::string(",operands=") + ((a < P && b < P && c < P && a >= 0 && b >= 0 && c >= 0) ? "reduced" : "unreduced");
+  const Z ma = a * b + c, am = (a + b) * c, apb = a + b;
+  const char* cl = (a < P && b < P && c < P && a >= 0 && b >= 0 && c >= 0) ? "reduced" : "unreduced";
+  Z got;
   if (word_limit > 0 && (ma > word_limit || ma < 0)) ++R.n[K_SKIP_FUSED_OVERFLOW];
   else {
     const Z want = pmod(ma, P);
     if (ma >= (toZ<Z>((unsigned long)1) << 31)) ++R.n[S_FUSED_NEAR_WORD];
     const E ea = mkE<Z, E>(a), eb = mkE<Z, E>(b), ec = mkE<Z, E>(c);
-    C10_CHECK(R, K_FUSED_MUL_ADD, toZ<Z>(op.multiply_and_add(ea, eb, ec)) == want, "fused.multiply_and_add", "form=value" + cl,
-              "multiply_and_add(" + zstr(a) + "," + zstr(b) + "," + zstr(c) + ")=" + zstr(toZ<Z>(op.multiply_and_add(ea, eb, ec))) + " want " + zstr(want));
-    { E t = ea; op.multiply_and_add_inplace_front(t, eb, ec); C10_CHECK(R, K_FUSED_MUL_ADD, toZ<Z>(t) == want, "fused.multiply_and_add", "form=inplace_front" + cl,
-              "multiply_and_add_inplace_front(" + zstr(a) + "," + zstr(b) + "," + zstr(c) + ") left " + zstr(toZ<Z>(t)) + " want " + zstr(want)); }
-    { E t = ec; op.multiply_and_add_inplace_back(ea, eb, t); C10_CHECK(R, K_FUSED_MUL_ADD, toZ<Z>(t) == want, "fused.multiply_and_add", "form=inplace_back" + cl,
-              "multiply_and_add_inplace_back(" + zstr(a) + "," + zstr(b) + "," + zstr(c) + ") left " + zstr(toZ<Z>(t)) + " want " + zstr(want)); }
+    got = toZ<Z>(op.multiply_and_add(ea, eb, ec));
+    C10_CHECKV(R, Z, K_FUSED_MUL_ADD, got == want, "fused.multiply_and_add", &a, &b, &c, &got, &want, "value", nullptr, "operands", cl);
+    { E t = ea; op.multiply_and_add_inplace_front(t, eb, ec); got = toZ<Z>(t); C10_CHECKV(R, Z, K_FUSED_MUL_ADD, got == want, "fused.multiply_and_add", &a, &b, &c, &got, &want, "inplace_front", nullptr, "operands", cl); }
+    { E t = ec; op.multiply_and_add_inplace_back(ea, eb, t); got = toZ<Z>(t); C10_CHECKV(R, Z, K_FUSED_MUL_ADD, got == want, "fused.multiply_and_add", &a, &b, &c, &got, &want, "inplace_back", nullptr, "operands", cl); }
   }
-  if (word_limit > 0 && (am > word_limit || am < 0 || a + b > word_limit)) ++R.n[K_SKIP_FUSED_OVERFLOW];
+  if (word_limit > 0 && (am > word_limit || am < 0 || apb > word_limit)) ++R.n[K_SKIP_FUSED_OVERFLOW];
   else {
     const Z want = pmod(am, P);
     E ea = mkE<Z, E>(a); const E eb = mkE<Z, E>(b), ec = mkE<Z, E>(c);
-    C10_CHECK(R, K_FUSED_ADD_MUL, toZ<Z>(op.add_and_multiply(ea, eb, ec)) == want, "fused.add_and_multiply", "form=value" + cl,
-              "add_and_multiply(" + zstr(a) + "," + zstr(b) + "," + zstr(c) + ")=" + zstr(toZ<Z>(op.add_and_multiply(ea, eb, ec))) + " want " + zstr(want));
-    { E t = ea; op.add_and_multiply_inplace_front(t, eb, ec); C10_CHECK(R, K_FUSED_ADD_MUL, toZ<Z>(t) == want, "fused.add_and_multiply", "form=inplace_front" + cl,
-              "add_and_multiply_inplace_front(" + zstr(a) + "," + zstr(b) + "," + zstr(c) + ") left " + zstr(toZ<Z>(t)) + " want " + zstr(want)); }
-    { E t = ec; op.add_and_multiply_inplace_back(ea, eb, t); C10_CHECK(R, K_FUSED_ADD_MUL, toZ<Z>(t) == want, "fused.add_and_multiply", "form=inplace_back" + cl,
-              "add_and_multiply_inplace_back(" + zstr(a) + "," + zstr(b) + "," + zstr(c) + ") left " + zstr(toZ<Z>(t)) + " want " + zstr(want)); }
+    got = toZ<Z>(op.add_and_multiply(ea, eb, ec));
+    C10_CHECKV(R, Z, K_FUSED_ADD_MUL, got == want, "fused.add_and_multiply", &a, &b, &c, &got, &want, "value", nullptr, "operands", cl);
+    { E t = ea; op.add_and_multiply_inplace_front(t, eb, ec); got = toZ<Z>(t); C10_CHECKV(R, Z, K_FUSED_ADD_MUL, got == want, "fused.add_and_multiply", &a, &b, &c, &got, &want, "inplace_front", nullptr, "operands", cl); }
+    { E t = ec; op.add_and_multiply_inplace_back(ea, eb, t); got = toZ<Z>(t); C10_CHECKV(R, Z, K_FUSED_ADD_MUL, got == want, "fused.add_and_multiply", &a, &b, &c, &got, &want, "inplace_back", nullptr, "operands", cl); }
   }
+}
+
+// ------------------------------------------------------------------------------------------ block drivers
+template <class F, bool kBool>
+inline void elem_block(Rep& R, i128 P, const std::vector<uint64_t>& primes, const std::vector<i128>& as, const std::vector<i128>& bs, const std::vector<i128>& Qs) {
+  for (i128 a : as) {
+    elem_unary<F, kBool>(R, P, primes, a, Qs);
+    for (i128 b : bs) elem_binary<F, kBool>(R, P, a, b);
+  }
+  elem_constants<F>(R, P, primes, Qs);
+}
+// native operator classes (Element = unsigned int): operands outside [0, UINT_MAX] are not representable and skipped
+template <class Op, class E>
+inline void ops_block(Rep& R, Op& op, i128 P, const std::vector<uint64_t>& primes, const std::vector<i128>& as, const std::vector<i128>& bs, const std::vector<i128>& cs,
+                      const std::vector<i128>& Qs, i128 word_limit, bool inverse_of_unreduced) {
+  const i128 emax = std::is_same_v<E, bool> ? 1 : (i128)UINT_MAX;
+  for (i128 a : as) {
+    if (a < 0 || a > emax) continue;
+    ops_unary<Op, E, i128>(R, op, P, primes, a, Qs, inverse_of_unreduced);
+    for (i128 b : bs) {
+      if (b < 0 || b > emax) continue;
+      ops_binary<Op, E, i128>(R, op, P, a, b);
+      for (i128 c : cs) {
+        if (c < 0 || c > emax) continue;
+        ops_fused<Op, E, i128>(R, op, P, a, b, c, word_limit);
+      }
+    }
+  }
+  ops_constants<Op, i128>(R, op, P, primes, Qs);
+}
+inline void finish_block(vh::Case& c, Rep& R, const std::string& desc, uint64_t salt) {
+  bool nt = R.total_ops() >= 20 && (R.n[S_RESULT_WRAPPED] > 0 || R.n[K_INVERSE] > 0 || R.n[K_PARTIAL_INVERSE] > 0);
+  if (nt) c.nontrivial(vh::hash_mix(vh::hash_str(desc), salt));
+  c.sample("{\"block\":\"" + vh::jesc(desc) + "\",\"evaluations\":" + std::to_string(R.total_ops()) + "}");
 }
 
 // ------------------------------------------------------------------------------------------ cohomology coefficient classes
@@ -480,22 +574,22 @@ inline void ops_fused(Rep& R, Op& op, const Z& P, const Z& a, const Z& b, const 
 template <class Coh, class E, class Z>
 inline void coh_triple(Rep& R, Coh& f, const Z& P, const Z& x, const Z& y, const Z& w) {
   const E ex = mkE<Z, E>(x), ey = mkE<Z, E>(y), ew = mkE<Z, E>(w);
-  Z want = pmod(Z(x + w * y), P);
-  if (x + w * y >= P) ++R.n[S_RESULT_WRAPPED];
-  if (x + w * y >= (toZ<Z>((unsigned long)1) << 30)) ++R.n[S_FUSED_NEAR_WORD];
+  const Z exact = x + w * y;
+  Z want = pmod(exact, P);
+  if (exact >= P) ++R.n[S_RESULT_WRAPPED];
+  if (exact >= (toZ<Z>((unsigned long)1) << 30)) ++R.n[S_FUSED_NEAR_WORD];
   Z got = toZ<Z>(f.plus_times_equal(ex, ey, ew));
-  C10_CHECK(R, K_COH_PLUS_TIMES, got == want, "coh.plus_times_equal", "form=value", "plus_times_equal(" + zstr(x) + "," + zstr(y) + "," + zstr(w) + ")=" + zstr(got) + " want " + zstr(want));
+  C10_CHECKV(R, Z, K_COH_PLUS_TIMES, got == want, "coh.plus_times_equal", &x, &y, &w, &got, &want, "value(a+c*b)");
 }
 template <class Coh, class E, class Z>
 inline void coh_pair(Rep& R, Coh& f, const Z& P, const Z& x, const Z& y) {
   const E ex = mkE<Z, E>(x), ey = mkE<Z, E>(y);
   Z got = toZ<Z>(f.times_minus(ex, ey)), want = pmod(Z(-(x * y)), P);
-  C10_CHECK(R, K_COH_TIMES_MINUS, got == want, "coh.times_minus", std::string("form=value,") + (want == 0 ? "product_is_zero" : "product_nonzero"),
-            "times_minus(" + zstr(x) + "," + zstr(y) + ")=" + zstr(got) + " want " + zstr(want));
+  C10_CHECKV(R, Z, K_COH_TIMES_MINUS, got == want, "coh.times_minus", &x, &y, C10_NIL(Z), &got, &want, "value", nullptr, "product", (want == 0 ? "zero" : "nonzero"));
   got = toZ<Z>(f.times(ex, ey)); want = pmod(Z(x * y), P);
-  C10_CHECK(R, K_COH_TIMES, got == want, "coh.times", "form=value", "times(" + zstr(x) + "," + zstr(y) + ")=" + zstr(got) + " want " + zstr(want));
+  C10_CHECKV(R, Z, K_COH_TIMES, got == want, "coh.times", &x, &y, C10_NIL(Z), &got, &want, "value");
   got = toZ<Z>(f.plus_equal(ex, ey)); want = pmod(Z(x + y), P);
-  C10_CHECK(R, K_COH_PLUS, got == want, "coh.plus_equal", "form=value", "plus_equal(" + zstr(x) + "," + zstr(y) + ")=" + zstr(got) + " want " + zstr(want));
+  C10_CHECKV(R, Z, K_COH_PLUS, got == want, "coh.plus_equal", &x, &y, C10_NIL(Z), &got, &want, "value");
 }
 template <class Coh, class E, class Z>
 inline void coh_unary(Rep& R, Coh& f, const Z& P, const std::vector<uint64_t>& primes, const Z& x, const std::vector<Z>& Qs) {
@@ -505,20 +599,17 @@ inline void coh_unary(Rep& R, Coh& f, const Z& P, const std::vector<uint64_t>& p
     if (x == 0) { ++R.n[K_SKIP_INVERSE_OF_ZERO]; return; }
     auto pi = f.inverse(ex, mkE<Z, E>(P));
     Z iv = toZ<Z>(pi.first), T = toZ<Z>(pi.second);
-    C10_CHECK(R, K_INVERSE, iv >= 0 && iv < P && pmod(Z(iv * x), P) == 1 && T == P, "inverse", "form=coh_inverse_single_prime", "inverse(" + zstr(x) + ",P)=(" + zstr(iv) + "," + zstr(T) + ")");
+    C10_CHECKV(R, Z, K_INVERSE, iv >= 0 && iv < P && pmod(Z(iv * x), P) == 1 && T == P, "inverse", &x, &P, C10_NIL(Z), &iv, &T, "coh_inverse_single_prime");
     Z one = toZ<Z>(f.times(ex, mkE<Z, E>(iv)));
-    C10_CHECK(R, K_INVERSE, one == 1, "inverse", "form=x_times_inverse", "times(x, inverse(x))=" + zstr(one) + " for x=" + zstr(x));
+    C10_CHECKV(R, Z, K_INVERSE, one == 1, "inverse", &x, &iv, C10_NIL(Z), &one, C10_NIL(Z), "x_times_inverse");
   } else {
     for (const Z& Q : Qs) {
       auto pi = f.inverse(ex, mkE<Z, E>(Q));
       Z gv = toZ<Z>(pi.first), gT = toZ<Z>(pi.second);
-      std::string why = partial_inverse_wrong<Z>(primes, P, x, Q, gv, &gT);
-      bool all = true, none = true;
-      for (uint64_t q : primes) { Z zq = toZ<Z>((unsigned long)q); if (Q % zq == 0) { if (x % zq == 0) all = false; else none = false; } }
-      if (none) ++R.n[S_PARTIAL_NONE]; else if (all) ++R.n[S_PARTIAL_ALL]; else ++R.n[S_PARTIAL_MIXED];
-      if (Q != P && Q != 1) ++R.n[S_PROPER_Q];
-      C10_CHECK(R, K_PARTIAL_INVERSE, why.empty(), "partial_inverse", std::string("form=") + (Q == P ? "Q_is_full_product" : "Q_is_proper_subproduct") + "," + why,
-                "inverse(x=" + zstr(x) + ", Q=" + zstr(Q) + ") returned (" + zstr(gv) + ", T=" + zstr(gT) + ")");
+      const char* why = partial_inverse_wrong<Z>(primes, P, x, Q, gv, &gT);
+      note_partial<Z>(R, primes, P, x, Q);
+      C10_CHECKV(R, Z, K_PARTIAL_INVERSE, !*why, "partial_inverse", &x, &Q, C10_NIL(Z), &gv, &gT, (Q == P ? "Q_is_full_product" : "Q_is_proper_subproduct"),
+                 nullptr, nullptr, nullptr, nullptr, nullptr, why);
     }
   }
 }
